@@ -216,7 +216,7 @@ func stripQuant(s string) string {
 // different seeds are raced before the long ones.
 func solveOne(file string, timeoutS int, seed int, crossCheck bool) SolveResult {
 	z3n, cvc, z3o := solvers[0], solvers[1], solvers[2]
-	short := min(timeoutS, 3)
+	short := min(timeoutS, 4)
 	// most obligations are decided in a few milliseconds: one cheap attempt before racing
 	first := runSolver(context.Background(), z3n, file, 1, seed)
 	if (first.Status == "sat" || first.Status == "unsat") && !crossCheck {
